@@ -241,6 +241,12 @@ def run(ctx):
     ctx.extra["point_events"] = len(events)
     ctx.sample(events[0])
     ctx.sample(events[-1])
+    import copy
+    bad = copy.deepcopy(next(e for e in events if len(e["pts"]) >= 2))
+    bad["pts"][1] = bad["pts"][0]                # one commensurate point lost, another duplicated
+    ctx.binding_demo("duplicate commensurate point", "MC_Commensurate", CFG,
+                     "---- MODULE MC_Commensurate ----\nEXTENDS Commensurate\nMCEvents == {%s}\n====\n" % to_tla(bad),
+                     "ImplDistinct")
     for i in range(0, len(events), 4000):
         validate_points(ctx, events[i:i + 4000])
     ctx.assumptions.append("lossless round trip = perfect pairing (TLC, exact) + svec congruence (C05/C02) + numeric "
